@@ -245,7 +245,11 @@ impl Normalizer for Sequence {
         for normalizer in &self.normalizers {
             let (next_normalized, mut next_offsets) = normalizer.normalize(&normalized)?;
             for offset in next_offsets.iter_mut() {
-                *offset = offsets[*offset];
+                // A normalizer may report the end of its input as an offset
+                // (eg. `Replace` with a pattern that matches the empty string
+                // at the end of the text). Map that to the end of the source
+                // text.
+                *offset = offsets.get(*offset).copied().unwrap_or(text.len());
             }
             normalized = next_normalized;
             offsets = next_offsets;
